@@ -296,10 +296,26 @@ def build_system(case: SysCase, ctx: _Ctx | None = None):
         for j, (start, e) in enumerate(v.formulas):
             fe = _compile(e, v.entity, v.entity, ctx)
             ret = _RET_DTYPES[(i + j) % len(_RET_DTYPES)]
+            variant = (3 * i + 5 * j + len(case.vars)) % 4
 
-            def make(fe=fe, ret=ret):
-                def formula(pop, period):          # exactly two positional arguments (no parameters)
-                    return fe(pop, period).astype(ret)
+            def make(fe=fe, ret=ret, vtype=v.vtype, variant=variant, const=(e[1] if e[0] == "c" else None)):
+                def result(pop, period):
+                    x = fe(pop, period)
+                    if vtype == "enum":            # integer indices: Simulation._cast_formula_result encodes them
+                        return x.astype(np.int64)
+                    if vtype == "date":            # ordinals -> dates
+                        return np.datetime64("0001-01-01") + (x.astype(np.int64) - 1).astype("timedelta64[D]")
+                    if vtype == "str":
+                        return np.array([f"s{int(n)}" for n in x.tolist()], dtype=object)
+                    if const is not None and variant == 2:
+                        return ret(const)          # a scalar: _cast_formula_result fills the array
+                    return x.astype(ret)
+                if variant % 2 == 1:
+                    def formula(pop, period, parameters):      # three positional arguments
+                        return result(pop, period)
+                else:
+                    def formula(pop, period):                  # exactly two positional arguments
+                        return result(pop, period)
                 return formula
             formula = make()
             if start <= 1:
@@ -307,6 +323,11 @@ def build_system(case: SysCase, ctx: _Ctx | None = None):
             else:
                 d = dt.date.fromordinal(start)
                 fname = f"formula_{d.year}_{d.month:02d}_{d.day:02d}"
+                # the shorter spellings of the same date: formula_YYYY, formula_YYYY_MM
+                if d.day == 1 and d.month == 1 and (i + j) % 3 == 0:
+                    fname = f"formula_{d.year}"
+                elif d.day == 1 and (i + j) % 3 == 1:
+                    fname = f"formula_{d.year}_{d.month:02d}"
             attrs[fname] = formula
         tbs.add_variable(type(f"v{i}", (variables.Variable,), attrs))
     for i, v in enumerate(case.vars):
@@ -418,7 +439,13 @@ def run_real(case: SysCase, configure=None, after_request=None):
             o = "ok:" + canon_array(res)
             if v < len(case.vars):
                 want = tbs.get_variable(f"v{v}").dtype
-                if getattr(res, "dtype", None) != want and not (kind == "add"):
+                if case.vars[v].vtype == "enum":
+                    # the declared type is the enumeration; the integer width of the index array is not
+                    # binding (uint8 from Enum.encode, int16 from default_array: DESIGN section 8, observations)
+                    from openfisca_core.indexed_enums import EnumArray
+                    if not (isinstance(res, EnumArray) and res.possible_values is E5 and res.dtype.kind in "iu") and kind != "add":
+                        problems.append(f"request {r}: {type(res).__name__} of dtype {getattr(res, 'dtype', None)} is not an EnumArray of the declared enumeration")
+                elif getattr(res, "dtype", None) != want and not (kind == "add"):
                     problems.append(f"request {r}: dtype {getattr(res, 'dtype', None)} != declared {want}")
         except Exception as exc:  # the implementation's error, classified
             o = classify(exc)
@@ -441,7 +468,12 @@ POOL = {"month": MONTHS, "year": YEARS, "day": DAYS, "eternity": ["eternity/-1,-
 REQ_POOL = {"month": MONTHS, "year": YEARS, "day": DAYS, "eternity": MONTHS[:2] + YEARS[:1] + DAYS[:1]}
 STARTS = [1, 1, 1, dt.date(2017, 1, 1).toordinal(), dt.date(2018, 1, 1).toordinal(), dt.date(2018, 2, 1).toordinal(),
           dt.date(2018, 1, 15).toordinal(), dt.date(2018, 3, 1).toordinal()]
-ENDS = [None, None, None, dt.date(2017, 12, 31).toordinal(), dt.date(2018, 1, 31).toordinal(), dt.date(2018, 2, 15).toordinal()]
+ENDS = [None, None, None, dt.date(2017, 12, 31).toordinal(), dt.date(2018, 1, 31).toordinal(), dt.date(2018, 2, 15).toordinal(),
+        # an end that IS the first day of a requested period (the variable is still in force on that day)
+        dt.date(2018, 2, 1).toordinal(), dt.date(2018, 1, 1).toordinal()]
+
+
+CLAMP = {"enum": (0, ENUM_SIZE - 1), "date": (1, 400), "str": (0, 9)}
 
 
 def compatible(target_unit: str, caller_unit: str) -> list:
@@ -555,7 +587,13 @@ def gen_vars(rng, n, spiral=False, cycle=False, fault_ids=None, bad_rate=0.0, un
         vars_.append(v)
     for i, v in enumerate(vars_):
         if v.vtype in ("enum", "date", "str"):
-            continue                                   # inputs / defaults only
+            # inputs / defaults, or one undated formula whose integer result is clamped into the type's range
+            # (enum index, date ordinal, number of the string "s<n>")
+            if i > 0 and rng.random() < 0.5:
+                lo, hi = CLAMP[v.vtype]
+                e = rand_expr(rng, vars_, i, rng.randint(0, 2), v.entity, v.unit, (lambda j, i=i: j < i), fault_ids, bad_rate)
+                v.formulas.append((1, ("o2", 2, ("o2", 3, e, ("c", lo)), ("c", hi))))
+            continue
         nf = rng.choice([0, 1, 1, 1, 2, 3]) if i > 0 or spiral else 0
         if v.unit == "eternity":
             nf = min(nf, 1)
